@@ -7,7 +7,8 @@
 #define B_IN_SCALAR_T size_t   /* contravariant_output_t::scalar_t: flat index type of the array-like storage */
 #define MORTON_BITS (64 / DIMS_IN)
 #define MORTON_COORD_OK(v) ((v) >= 0 && (MORTON_BITS >= 64 || (uint64_t)(v) < ((uint64_t)1 << (MORTON_BITS % 64))))
-#define MORTON_DOMAIN(c) __CPROVER_forall { unsigned vj; (vj < DIMS_IN) ==> MORTON_COORD_OK((c).m_data[vj]) }
+#define MORTON_COORD_OK_K(k, c) MORTON_COORD_OK((c).m_data[k])
+#define MORTON_DOMAIN(c) VERIF_ALL(DIMS_IN, MORTON_COORD_OK_K, c)
 #define MORTON_BIT(c, q) ((q) < DIMS_IN * MORTON_BITS ? (((uint64_t)(c).m_data[(q) % DIMS_IN] >> ((q) / DIMS_IN)) & 1) : (uint64_t)0)
 #define MORTON_INTERLEAVED(r, c) __CPROVER_forall { unsigned vq; (vq < 64) ==> ((((uint64_t)(r)) >> vq) & 1) == MORTON_BIT(c, vq) }
 
@@ -35,14 +36,17 @@ size_t verif_b_size;                 /* ghost: B's domain is [0, verif_b_size) *
 /* representation invariant of a Morton view over array-like storage, with ghost exponent k:
  * every extent is in [1, 2^k], k*N <= 63, and the storage has exactly 2^(k N) cells
  * (lemma h_morton_alloc shows the two allocation-size expressions of morton.hpp establish it) */
+#define MORTON_EXTENT_OK_K(k, sizes) ((sizes).m_data[k] >= 1 && (sizes).m_data[k] <= ((size_t)1 << verif_ghost_k))
+#define MORTON_EXTENT_BIG_K(k, sizes) ((sizes).m_data[k] > ((size_t)1 << (verif_ghost_k - 1)))
+#define MORTON_C_IN_RANGE_K(k, self, c) ((c).m_data[k] >= 0 && (uint64_t)(c).m_data[k] < (self)->m_sizes.m_data[k])
 #define MORTON_INV(sizes) \
   (verif_ghost_k <= 63 / DIMS_IN && verif_b_size == ((size_t)1 << (verif_ghost_k * DIMS_IN)) && \
-   __CPROVER_forall { unsigned vi; (vi < DIMS_IN) ==> ((sizes).m_data[vi] >= 1 && (sizes).m_data[vi] <= ((size_t)1 << verif_ghost_k)) })
+   VERIF_ALL(DIMS_IN, MORTON_EXTENT_OK_K, sizes))
 
 #define CONTRACT_morton_at(self, c) \
   __CPROVER_requires(__CPROVER_is_fresh(self, sizeof(*self))) \
   __CPROVER_requires(MORTON_INV((self)->m_sizes)) \
-  __CPROVER_requires(__CPROVER_forall { unsigned vj; (vj < DIMS_IN) ==> ((c).m_data[vj] >= 0 && (uint64_t)(c).m_data[vj] < (self)->m_sizes.m_data[vj]) }) \
+  __CPROVER_requires(VERIF_ALL(DIMS_IN, MORTON_C_IN_RANGE_K, self, c)) \
   __CPROVER_requires(verif_b_calls == 0) \
   __CPROVER_ensures(verif_b_calls == 1) \
   __CPROVER_ensures(MORTON_INTERLEAVED(verif_b_arg[0], c)) \
@@ -52,8 +56,8 @@ size_t verif_b_size;                 /* ghost: B's domain is [0, verif_b_size) *
 /* allocation-size expressions: with ghost k = ceil(log2(max extent)) the storage length is 2^(k N) */
 #define MORTON_SIZES_OK(sizes) \
   (verif_ghost_k <= 63 / DIMS_IN && \
-   __CPROVER_forall { unsigned vi; (vi < DIMS_IN) ==> ((sizes).m_data[vi] >= 1 && (sizes).m_data[vi] <= ((size_t)1 << verif_ghost_k)) } && \
-   (verif_ghost_k == 0 || __CPROVER_exists { unsigned ve; (ve < DIMS_IN) && (sizes).m_data[ve] > ((size_t)1 << (verif_ghost_k - 1)) }))
+   VERIF_ALL(DIMS_IN, MORTON_EXTENT_OK_K, sizes) && \
+   (verif_ghost_k == 0 || VERIF_ANY(DIMS_IN, MORTON_EXTENT_BIG_K, sizes)))
 #define CONTRACT_morton_alloc_size_copy(sizes) \
   __CPROVER_requires(MORTON_SIZES_OK(sizes)) \
   __CPROVER_ensures(__CPROVER_return_value == ((size_t)1 << (verif_ghost_k * DIMS_IN))) \
